@@ -107,7 +107,7 @@ func newVfHarness(t *testing.T) *vfHarness {
 	}
 	a := api.New(100, m)
 	io := &vfAIO{store: store, router: r}
-	s := system.New(a, io, &system.Config{CoroutineMaxSize: 100, SubmissionBatchSize: 100, CompletionBatchSize: 100, PromiseBatchSize: 100, TaskBatchSize: 100, ScheduleBatchSize: 100}, m)
+	s := system.New(a, io, &system.Config{Url: "http://resonate",CoroutineMaxSize: 100, SubmissionBatchSize: 100, CompletionBatchSize: 100, PromiseBatchSize: 100, TaskBatchSize: 100, ScheduleBatchSize: 100}, m)
 	s.AddOnRequest(t_api.ReadPromise, coroutines.ReadPromise)
 	s.AddOnRequest(t_api.SearchPromises, coroutines.SearchPromises)
 	s.AddOnRequest(t_api.CreatePromise, coroutines.CreatePromise)
@@ -124,6 +124,7 @@ func newVfHarness(t *testing.T) *vfHarness {
 	s.AddOnRequest(t_api.ClaimTask, coroutines.ClaimTask)
 	s.AddOnRequest(t_api.CompleteTask, coroutines.CompleteTask)
 	s.AddOnRequest(t_api.HeartbeatTasks, coroutines.HeartbeatTasks)
+	s.AddOnRequest(t_api.SearchSchedules, coroutines.SearchSchedules)
 	return &vfHarness{t: t, api: a, aio: io, system: s}
 }
 
